@@ -16,6 +16,8 @@ def errS : Err → Sexp
   | .valueError => .list [.atom "err", .atom "ValueError"]
   | .indexError => .list [.atom "err", .atom "IndexError"]
   | .attributeError => .list [.atom "err", .atom "AttributeError"]
+  | .typeError => .list [.atom "err", .atom "TypeError"]
+  | .notImplementedError => .list [.atom "err", .atom "NotImplementedError"]
 
 def ratS (q : Rat) : Sexp := .list [.atom "q", Sexp.ofInt q.num, Sexp.ofNat q.den]
 
@@ -196,6 +198,23 @@ def handle (req : Sexp) : Sexp :=
       let res := modelCreate (fun (_ _ : Nat) => v) (fun _ _ => 1) 0 0
       .atom (if res.params = 0 then "keep" else "repair")
     | none => bad
+  | .list [.atom "sdcorr", r, vals] =>
+    match rvs? r, vals.asList? with
+    | some r, some vs =>
+      match vs.mapM (fun | .list [.atom k, q] => (rat? q).map (k, ·) | _ => none) with
+      | some kv =>
+        let vd : Dict := fun s => kv.lookup s
+        -- exact square root of a rational whose numerator and denominator are perfect squares
+        let sq : Rat → Rat := fun q => mkRat (Int.ofNat (Nat.sqrt q.num.toNat)) (Nat.sqrt q.den)
+        match sdcorr sq vd r with
+        | .error k => errS k
+        | .ok F =>
+          let inv := sdcorrInv F r
+          .list [.atom "ok", .list (kv.map fun p => .list [.atom p.1, ratS ((F p.1).getD 0)]),
+                 Sexp.ofBool (agree (r.flatMap (sdcorrAsg sq vd))),
+                 Sexp.ofBool (kv.all fun p => inv p.1 == some p.2)]
+      | none => bad
+    | _, _ => bad
   | .list [.atom "triroot", n] =>
     match n.asNat? with
     | some n => Sexp.ofNat (triangularRoot n)
